@@ -85,6 +85,9 @@ def split_bars(case):
         seqs = [build(t, via(idx + i)) for i, t in enumerate(tracks)]
         line["tracks"] = [P.raw_rel(s) for s in seqs]
         line["absBefore"] = [P.raw_abs(s) for s in seqs]
+        if idx % 4 == 3:
+            # history: the same inputs were split into bars before (they are unchanged by it), the judged call is the second
+            Sequence.sequences_split_bars(seqs, meta_track_index=meta_idx, quantise_note_lengths=qnl)
         out = Sequence.sequences_split_bars(seqs, meta_track_index=meta_idx, quantise_note_lengths=qnl)
         line["bars"] = [[{"rel": P.raw_rel(b.sequence), "num": b.time_signature_numerator,
                           "den": b.time_signature_denominator, "key": kname(b.key_signature)} for b in tb] for tb in out]
